@@ -10,9 +10,11 @@ CONSTANTS
   MaxFaults = 1
   StoreMetaFirst = FALSE
   KillWaits = TRUE
+  ReplaceStaleDel = TRUE
 INVARIANT CrashSafe
 INVARIANT CrashDurable
 INVARIANT NoCommitLost
+INVARIANT NoSpuriousFailure
 INVARIANT OrphanIsF4Class
 INVARIANT GcComplete
 PROPERTY GcTight
